@@ -6,12 +6,12 @@ From Coq Require Import List NArith ZArith Bool String Ascii DecimalString.
 Import ListNotations.
 Local Open Scope string_scope.
 
-Definition rev_string (cur : list ascii) : string := string_of_list_ascii (rev cur).
+Definition rev_string (cur : list ascii) : string := string_of_list_ascii (rev_append cur []).
 
 (* cur holds the characters of the current field in reverse *)
 Fixpoint split_acc (sep : ascii) (s : string) (cur : list ascii) (acc : list string) : list string :=
   match s with
-  | EmptyString => rev (rev_string cur :: acc)
+  | EmptyString => rev_append (rev_string cur :: acc) []   (* List.rev is quadratic *)
   | String c r =>
       if Ascii.eqb c sep then split_acc sep r [] (rev_string cur :: acc)
       else split_acc sep r (c :: cur) acc
